@@ -318,3 +318,36 @@ def ess_extrema(h):
             sel[i], sel[j], i, j, ' and '.join('(not (%s) or (f%d <= f%d and f%d >= f%d))' % (sel[q], q, i, q, j) for q in range(n)))
             for i in range(n) for j in range(n))
         h.check('difference-of-the-extreme-values-of-f-over-the-selected-points', pairs, r=r, **env)
+
+
+@contract('C18/moment-spread', ['C18'], F + '::moment', samples=200)
+def moment_spread(h):
+    """moment(x, w, order) = weighted mean of (x_i - mean)^order (1 for order 0, 0 for order 1); spread = max - min"""
+    n = h.choice('n', [1, 2, 3])
+    what = h.choice('function', ['moment0', 'moment1', 'moment2', 'moment3', 'spread'])
+    x = h.vec('x', n)
+    if what == 'spread':
+        r = h.call(h.get(F + '::spread'), x)
+        h.check('spread-is-max-minus-min', 'r == max(%s) - min(%s)' % ((', '.join(['x[%d]' % i for i in range(n)] + ['x[0]']),) * 2), r=r, x=x)
+        return
+    order = int(what[-1])
+    weighted = h.choice('weighted', [False, True])
+    w = None
+    if weighted:
+        w = h.vec('w', n)
+        h.assume(' + '.join('w[%d]' % i for i in range(n)) + ' != 0', w=w)
+    r = h.call(h.get(F + '::moment'), x, w, order)
+    wn = 'w' if weighted else None
+    m = _mean('x', n, wn)
+    if order == 0:
+        h.check('zeroth-moment-is-one', 'r == 1', r=r)
+    elif order == 1:
+        h.check('first-central-moment-is-zero', 'r == 0', r=r)
+    else:
+        dev = ['(x[%d] - %s)' % (i, m) for i in range(n)]
+        terms = [' * '.join([d] * order) for d in dev]
+        if weighted:
+            spec = '((%s) / (%s))' % (' + '.join('%s * w[%d]' % (t, i) for i, t in enumerate(terms)), ' + '.join('w[%d]' % i for i in range(n)))
+        else:
+            spec = '((%s) / %d)' % (' + '.join(terms), n)
+        h.check('weighted-mean-of-the-powered-deviations', 'r == ' + spec, r=r, x=x, w=w)
